@@ -36,6 +36,21 @@ theorem full_transform_peak_error_all_blocks (coef : Blk) (hb : ∀ v ∈ coef.t
     ((modelIdct coef).getD i 0 - (refIdct coef).getD i 0).natAbs ≤ 1 :=
   Lemmas.IdctErr.full_within_one coef hb i hi
 
+/-- **The first-row and first-column shortcuts, for EVERY block of their shape**: eight coefficients of magnitude at most 2048 in
+the first row (column) and zeros elsewhere; the shortcut path (`idct_1d` once, `* B00 / 4`, rounding with `x.signum()`) is within 1
+of the reference transform of that block at every sample.  Same error analysis as the full path; ordinary axioms. -/
+theorem first_row_peak_all_blocks (row : List Int) (hb : ∀ v ∈ row, v.natAbs ≤ 2048) (i : Nat) (hi : i < 64) :
+    ((shapeIdct (.horiz row)).getD i 0 - (refIdct (Lemmas.IdctErr.rowBlock row)).getD i 0).natAbs ≤ 1 :=
+  Lemmas.IdctErr.horiz_within_one row hb i hi
+
+theorem first_col_peak_all_blocks (col : List Int) (hb : ∀ v ∈ col, v.natAbs ≤ 2048) (i : Nat) (hi : i < 64) :
+    ((shapeIdct (.vert col)).getD i 0 - (refIdct (Lemmas.IdctErr.colBlock col)).getD i 0).natAbs ≤ 1 :=
+  Lemmas.IdctErr.vert_within_one col hb i hi
+
+/-- non-vacuity and shape of the reference blocks: `rowBlock` puts the list into row 0, `colBlock` into column 0 -/
+example : Lemmas.IdctErr.rowBlock [1, 2, 3, 4, 5, 6, 7, 8] =
+    #[1, 2, 3, 4, 5, 6, 7, 8] ++ Array.replicate 56 0 := by decide +kernel
+
 /-- an all-zero coefficient block maps to all zeros (kernel-checked) -/
 theorem zero_block : modelIdct (Array.replicate 64 0) = Array.replicate 64 0 := by decide +kernel
 
